@@ -652,7 +652,13 @@ func runCase(r *h.Run, c caseT) {
 	}
 	close(startGate)
 	if !waitTimeout(&wg, watchdog) {
-		r.Inconclusive(fmt.Sprintf("case=%d submitters did not return within the watchdog (%v); stacks in log", c.Index, watchdog))
+		// a submitter that sits on a lock inside nbio in a final state (nothing runs, nothing moves)
+		// will never return: that is a verdict, a bare expiry is not
+		if ok, detail := h.StuckInNbio(func() int64 { return e.issued.Load() + e.endedTotal.Load() }); ok {
+			r.Violate("c05:submission-never-returns", fmt.Sprintf("case %d (executor %s): Execute/MustExecute calls did not return; %s", c.Index, c.Executor, detail), c)
+		} else {
+			r.Inconclusive(fmt.Sprintf("case=%d submitters did not return within the watchdog (%v); stacks in log", c.Index, watchdog))
+		}
 		fmt.Println(h.Stacks())
 		curEnv.Store(nil)
 		e.abandoned.Store(true)
